@@ -22,7 +22,7 @@ UNIT_PROPS = {
     "term": ["C26"],
     "refs_verify": ["C20", "C01"],
     "fetch_run": ["C01", "C02"],
-    "service_relay": ["C11"],
+    "service_relay": ["C11", "C10"],
     "fetch_ancestry": ["C02", "C01"],
     "wire_codec": ["C15"],
     "fetch_validate": ["C01"],
@@ -135,11 +135,11 @@ PROPS = {
         "not_decided": "Assumed: references_glob(refs/namespaces/<id>/*) yields only refs of namespace <id>; find_reference returns the named ref; the map/collect chain building the delegate key set yields exactly the delegates; derive(Ord/PartialEq) on the key type is lawful. libgit2 itself is not verified.",
     },
     "C10": {
-        "vx": ["service_gossip"],
+        "vx": ["service_gossip", "service_relay"],
         "kx": [],
         "technique": "Verus gate idiom on the extracted Service::handle_announcement: sink gossip::Store::announced requires acceptable(announcement, clock); Announcement::verify proved to be the ed25519 check over the serialized message",
         "explanation": "Service::handle_announcement reaches the gossip store only with an announcement whose signature verifies for the announcing node over its wire encoding, whose timestamp is at most one hour ahead of the clock and not zero, whose announcer is known for inventory/refs announcements and is not the local node; a result of Some(id) implies those facts.",
-        "not_decided": "Strictly-newer-than-stored is SQL (WHERE timestamp < ?) inside the store; the relayer/announcer exclusion in Service::relay is three .filter closures (outside Verus); the per-type processing after the store is an opaque stand-in (arbitrary effect, result Ok(relay)|Ok(None) assumed). serialize() and ed25519 are uninterpreted.",
+        "not_decided": "Strictly-newer-than-stored is SQL (WHERE timestamp < ?) inside the store; the announcer exclusion of Service::relay is proved in unit service_relay (Outbox::relay is only given peers other than the announcer); the exclusion of the peers that relayed the announcement to us (first filter, Vec::contains inside Option::map) is a stand-in with arbitrary result -- not decided; the per-type processing after the store is an opaque stand-in (arbitrary effect, result Ok(relay)|Ok(None) assumed). serialize() and ed25519 are uninterpreted.",
     },
     "C11": {
         "vx": ["service_gossip", "service_relay", "service_inventory", "identity"],
